@@ -15,9 +15,20 @@
 // empty std HashMap built without RandomState::new().
 //
 // Stubs: S5a (Algorithm::name -> static views), S5b (Algorithm::from_name ->
-// octet comparison), S8 (name::new_boxed_name -> same allocation, initialised
-// octet by octet).  None of them takes part in the length arithmetic that
-// fails; native replay runs the real functions.
+// octet comparison).  Neither takes part in the length arithmetic that fails;
+// native replay runs the real functions.
+//
+// Two levels:
+//  * c01_tsig_reserve_*: the real server helpers.  The ReadTsigRr they get is
+//    built from static name representations (through a bridge into
+//    tsig_mac.rs, because its fields are private): ReadTsigRr::try_from on a
+//    255-octet name lower-cases every octet in loops whose bounds CBMC
+//    cannot see (measured: no result in 30 min).  The helpers themselves only
+//    clone the names and add up their lengths.
+//  * c01_set_tsig_*: the reservation made directly with Writer::set_tsig and
+//    a PreparedTsigRr / TsigMode::Unsigned as the helpers build them, names
+//    from the real constructor, no stub at all: set_tsig fails exactly when
+//    question + TSIG RR exceed the limit.
 
 use super::*;
 use crate::kani_common::*;
@@ -64,41 +75,8 @@ fn from_name_model(name: &Name) -> Option<Algorithm> {
     }
 }
 
-unsafe fn new_boxed_name_model(wire_len: usize, label_offsets: &[u8], slices: &[&[u8]]) -> Box<Name> {
-    let n_labels = label_offsets.len();
-    let size = 1 + n_labels + wire_len;
-    let layout = std::alloc::Layout::from_size_align_unchecked(size, 1);
-    let allocation = std::alloc::alloc(layout);
-    *allocation = n_labels as u8;
-    // wire form, octet by octet
-    let mut index = 1 + n_labels;
-    let mut s = 0;
-    while s < slices.len() {
-        let sl = slices[s];
-        let mut j = 0;
-        while j < sl.len() {
-            *allocation.add(index) = sl[j];
-            index += 1;
-            j += 1;
-        }
-        s += 1;
-    }
-    // label offsets: recomputed from the wire form just written (callers
-    // carry them through an ArrayVec<u8, 128>, where CBMC loses constants)
-    // and required to equal the ones passed in
-    let mut off = 0usize;
-    let mut i = 0;
-    while i < n_labels {
-        assert!(label_offsets[i] as usize == off, "new_boxed_name: label offsets describe the wire form");
-        *allocation.add(1 + i) = off as u8;
-        off += 1 + *allocation.add(1 + n_labels + off) as usize;
-        i += 1;
-    }
-    Box::from_raw(core::ptr::slice_from_raw_parts_mut(allocation, n_labels + wire_len) as *mut Name)
-}
-
-/// Wire form of a name of exactly N octets (N in 1, 3..=255) made of 'x' labels.
-fn x_name<const N: usize>() -> [u8; N] {
+/// Wire form of a name of exactly N octets (N in 1, 3..=65, 128, 255) made of 'x' labels.
+const fn x_name<const N: usize>() -> [u8; N] {
     let mut w = [b'x'; N];
     // labels of 63 octets while more than 65 octets remain, then one label
     // that uses up the rest, then the root label
@@ -119,6 +97,55 @@ fn x_name<const N: usize>() -> [u8; N] {
     w
 }
 
+/// In-memory representation of the same name: [n_labels, label offsets.., wire..];
+/// R = 1 + n_labels + N.
+const fn x_repr<const N: usize, const R: usize>() -> [u8; R] {
+    let w = x_name::<N>();
+    let n_labels = R - 1 - N;
+    let mut r = [0u8; R];
+    r[0] = n_labels as u8;
+    let mut off = 0usize;
+    let mut i = 0;
+    while i < n_labels {
+        r[1 + i] = off as u8;
+        off += 1 + w[off] as usize;
+        i += 1;
+    }
+    let mut j = 0;
+    while j < N {
+        r[1 + n_labels + j] = w[j];
+        j += 1;
+    }
+    r
+}
+
+/// TSIG RDATA with an empty MAC: algorithm name (LA octets) + 16 (fudge 300).
+const fn x_rdata<const LA: usize, const NR: usize>(known: bool) -> [u8; NR] {
+    let an = x_name::<LA>();
+    let mut rd = [0u8; NR];
+    let mut i = 0;
+    while i < LA {
+        rd[i] = if known { SHA256_WIRE[i] } else { an[i] };
+        i += 1;
+    }
+    rd[LA + 6] = 1;
+    rd[LA + 7] = 44;
+    rd
+}
+
+// 255 octets: labels 63, 63, 63, 61, root (5 labels); 64 octets: 62, root (2 labels)
+static K255: [u8; 261] = x_repr::<255, 261>();
+static K64: [u8; 67] = x_repr::<64, 67>();
+static RD_X255: [u8; 271] = x_rdata::<255, 271>(false);
+static RD_X64: [u8; 80] = x_rdata::<64, 80>(false);
+static RD_SHA256: [u8; 29] = x_rdata::<13, 29>(true);
+
+/// Body supplied by #[kani::stub] from tsig_mac.rs (ReadTsigRr has private
+/// fields): a ReadTsigRr with these names and RDATA, as try_from builds it.
+fn view_tsig_rr(_key_repr: &'static [u8], _alg_repr: &'static [u8], _rdata: &'static [u8]) -> ReadTsigRr<'static> {
+    panic!("view_tsig_rr must be stubbed")
+}
+
 fn empty_keys() -> TsigKeyMap {
     // RandomState::new() reaches getrandom (FFI); an empty map never hashes.
     let rs: RandomState = unsafe { core::mem::transmute([1u64, 2u64]) };
@@ -135,46 +162,117 @@ enum Site {
     BadMacSize,
 }
 
-/// LQ / LK / LA: wire lengths of QNAME, key name and algorithm name; NR =
-/// LA + 16 (RDATA with an empty MAC).  The response is the 512-octet UDP
-/// response of a request without EDNS.
-fn reservation<const LQ: usize, const LK: usize, const LA: usize, const NR: usize>(site: Site) {
+/// One of the three helpers on a request whose question has the root QNAME
+/// (17-octet query) and whose TSIG RR has the given key name / RDATA; the
+/// response is the 512-octet UDP response of a request without EDNS.
+fn reservation(site: Site, long_qname: bool, key_repr: &'static [u8], alg_repr: &'static [u8], rdata: &'static [u8]) {
+    let now: [u8; 6] = kani::any();
+    let tsig_rr = view_tsig_rr(key_repr, alg_repr, rdata);
+    let mut buf = [0u8; 512];
+    let mut response = Writer::new(&mut buf, 512).unwrap();
+    response.set_qr(true);
+    let qname: Box<Name> = if long_qname {
+        // a view of the 255-octet name (never dropped)
+        unsafe { Box::from_raw(core::ptr::slice_from_raw_parts(K255.as_ptr(), K255.len() - 1) as *mut Name) }
+    } else {
+        Name::root().to_owned()
+    };
+    let question = Question {
+        qname,
+        qtype: Qtype::from(1),
+        qclass: Qclass::from(1),
+    };
+    response.add_question(&question).unwrap();
+    let now_ts = TimeSigned::from(now);
+    match site {
+        Site::UnknownAlgorithm => {
+            let r = find_tsig_algorithm_or_write_error(&tsig_rr, now_ts, &mut response);
+            assert!(r.is_none(), "[C01] an algorithm name made of 'x' labels is unknown");
+        }
+        Site::UnknownKey => {
+            let keys = empty_keys();
+            let r = find_tsig_key_or_write_error(&tsig_rr, Algorithm::HmacSha256, &keys, now_ts, &mut response);
+            assert!(r.is_none(), "[C01] no key is configured");
+            core::mem::forget(keys);
+        }
+        Site::BadMacSize => {
+            let key: [u8; 2] = [1, 2];
+            let ok = verify_tsig_and_write_tsig_rr(&tsig_rr, &[0u8, 0, 0, 0, 0, 0, 0, 0, 0, 0, 0, 1], Algorithm::HmacSha256, &key, now_ts, &mut response);
+            assert!(!ok, "[C01] an empty MAC never authenticates");
+        }
+    }
+    // reaching this point means the helper did not panic
+    let n = response.finish();
+    assert!(n >= 17 && n <= 512, "[C01] response length");
+    kani::cover!(true, "the helper returned without panicking");
+    core::mem::forget(tsig_rr);
+    core::mem::forget(question);
+}
+
+macro_rules! reservation_harness {
+    ($name:ident, $site:expr, $lq:literal, $k:expr, $a:expr, $rd:expr) => {
+        #[kani::proof]
+        #[kani::unwind(8)]
+        #[kani::stub(crate::message::tsig::Algorithm::name, alg_name_static)]
+        #[kani::stub(crate::message::tsig::Algorithm::from_name, from_name_model)]
+        #[kani::stub(view_tsig_rr, crate::message::tsig::kani_tsig_mac::view_tsig_rr_impl)]
+        fn $name() {
+            reservation($site, $lq, $k, $a, $rd);
+        }
+    };
+}
+
+// @harness name=c01_tsig_reserve_fits_64_64 props=C01 tier=quick mem=6 t=1800 stubs="S5a,S5b" kani="--no-assertion-reach-checks"
+//   fn="find_tsig_algorithm_or_write_error,PreparedTsigRr::new_from_read,PreparedTsigRr::unsigned_len,Writer::set_tsig,Writer::finish"
+//   bound="[C01]/D7: 17-octet query, key name of 64 octets, unknown algorithm name of 64 octets ('x' labels), empty MAC; 512-octet response; 17+64+10+64+16 = 171 <= 512: must not panic; unwind 8"
+//   sym="now"
+reservation_harness!(c01_tsig_reserve_fits_64_64, Site::UnknownAlgorithm, false, &K64, &K64, &RD_X64);
+
+// @harness name=c01_tsig_reserve_unknown_alg_255_255 props=C01 tier=quick mem=6 t=1800 stubs="S5a,S5b" kani="--no-assertion-reach-checks"
+//   fn="find_tsig_algorithm_or_write_error,PreparedTsigRr::new_from_read,PreparedTsigRr::unsigned_len,Writer::set_tsig"
+//   bound="[C01]/D7: 17-octet query, key name 255 octets, unknown algorithm name 255 octets; 17+255+10+255+16 = 553 > 512 (a 553-octet request); unwind 8"
+//   sym="now"
+reservation_harness!(c01_tsig_reserve_unknown_alg_255_255, Site::UnknownAlgorithm, false, &K255, &K255, &RD_X255);
+
+// @harness name=c01_tsig_reserve_unknown_key_255_x255 props=C01 tier=quick mem=6 t=1800 stubs="S5a,S5b" kani="--no-assertion-reach-checks"
+//   fn="find_tsig_key_or_write_error,PreparedTsigRr::new_from_read,PreparedTsigRr::unsigned_len,Writer::set_tsig"
+//   bound="[C01]/D7: unknown key name of 255 octets with a 255-octet algorithm name, helper called as for a known algorithm; 553 > 512; unwind 8"
+//   sym="now"
+reservation_harness!(c01_tsig_reserve_unknown_key_255_x255, Site::UnknownKey, false, &K255, &K255, &RD_X255);
+
+// @harness name=c01_tsig_reserve_unknown_key_255_sha256 props=C01 tier=quick mem=6 t=1800 stubs="S5a,S5b" kani="--no-assertion-reach-checks"
+//   fn="find_tsig_key_or_write_error,Writer::set_tsig"
+//   bound="[C01]/D7: unknown key name of 255 octets, algorithm hmac-sha256.: 17+255+10+13+16 = 311 <= 512: must not panic; unwind 8"
+//   sym="now"
+reservation_harness!(c01_tsig_reserve_unknown_key_255_sha256, Site::UnknownKey, false, &K255, &SHA256_REPR, &RD_SHA256);
+
+// @harness name=c01_tsig_reserve_bad_mac_q255_k255 props=C01 tier=quick mem=6 t=1800 stubs="S5a,S5b" kani="--no-assertion-reach-checks"
+//   fn="verify_tsig_and_write_tsig_rr,ReadTsigRr::verify_request,check_mac_size,PreparedTsigRr::new_from_read,Writer::set_tsig"
+//   bound="[C01]/D7: QNAME 255 octets, key name 255 octets, hmac-sha256 with an empty MAC (FORMERR path, unsigned response TSIG): 12+259+255+10+13+16 = 565 > 512; unwind 8"
+//   sym="now"
+reservation_harness!(c01_tsig_reserve_bad_mac_q255_k255, Site::BadMacSize, true, &K255, &SHA256_REPR, &RD_SHA256);
+
+// --------------------------------------------------------------------------
+// Writer level: what the `.unwrap()` of the three helpers relies on
+// --------------------------------------------------------------------------
+
+fn lower_box(n: Box<Name>) -> Box<LowercaseName> {
+    // the 'x' names are lower case already; Box<LowercaseName>::from would
+    // walk every octet
+    unsafe { Box::from_raw(Box::into_raw(n) as *mut LowercaseName) }
+}
+
+/// The reservation that find_tsig_algorithm_or_write_error /
+/// find_tsig_key_or_write_error make for a BADKEY response (unsigned TSIG RR,
+/// error != BADTIME) to a query whose question has a QNAME of LQ octets,
+/// with a key name of LK and an algorithm name of LA octets, over UDP without
+/// EDNS (512-octet limit).
+fn set_tsig_reservation<const LQ: usize, const LK: usize, const LA: usize>() {
     let qn: [u8; LQ] = x_name::<LQ>();
     let kn: [u8; LK] = x_name::<LK>();
+    let an: [u8; LA] = x_name::<LA>();
     let time: [u8; 6] = kani::any();
-    let now: [u8; 6] = kani::any();
-    let mut rd = [0u8; NR];
-    if site == Site::UnknownAlgorithm {
-        let an: [u8; LA] = x_name::<LA>();
-        let mut i = 0;
-        while i < LA {
-            rd[i] = an[i];
-            i += 1;
-        }
-    } else {
-        let mut i = 0;
-        while i < LA {
-            rd[i] = SHA256_WIRE[i];
-            i += 1;
-        }
-    }
-    let mut i = 0;
-    while i < 6 {
-        rd[LA + i] = time[i];
-        i += 1;
-    }
-    // fudge 300, MAC size 0, original ID 0, error 0, other len 0
-    rd[LA + 6] = 1;
-    rd[LA + 7] = 44;
-    let rr = ReadRr {
-        owner: Name::try_from_uncompressed_all(&kn).unwrap(),
-        rr_type: Type::TSIG,
-        class: Qclass::ANY.into(),
-        ttl: Ttl::from(0),
-        rdata: Cow::Borrowed((&rd[..]).try_into().unwrap()),
-    };
-    let tsig_rr = ReadTsigRr::try_from(rr).unwrap();
-
+    let oid: u16 = kani::any();
     let mut buf = [0u8; 512];
     let mut response = Writer::new(&mut buf, 512).unwrap();
     response.set_qr(true);
@@ -183,76 +281,65 @@ fn reservation<const LQ: usize, const LK: usize, const LA: usize, const NR: usiz
         qtype: Qtype::from(1),
         qclass: Qclass::from(1),
     };
-    response.add_question(&question).unwrap();
-
-    let now_ts = TimeSigned::from(now);
-    let keys = empty_keys();
-    let key: [u8; 2] = [1, 2];
-    // the TSIG RR the server wants to attach: owner + 10 + RDATA(alg + 16 [+ MAC] [+ 6])
-    let needed = 12 + LQ + 4 + LK + LA + 26;
-    match site {
-        Site::UnknownAlgorithm => {
-            let r = find_tsig_algorithm_or_write_error(&tsig_rr, now_ts, &mut response);
-            assert!(r.is_none(), "[C01] an algorithm name made of 'x' labels is unknown");
-        }
-        Site::UnknownKey => {
-            let a = find_tsig_algorithm_or_write_error(&tsig_rr, now_ts, &mut response);
-            assert!(a == Some(Algorithm::HmacSha256), "[C01] hmac-sha256 is known");
-            let r = find_tsig_key_or_write_error(&tsig_rr, Algorithm::HmacSha256, &keys, now_ts, &mut response);
-            assert!(r.is_none(), "[C01] no key is configured");
-        }
-        Site::BadMacSize => {
-            let ok = verify_tsig_and_write_tsig_rr(&tsig_rr, &[0u8, 0, 0, 0, 0, 0, 0, 0, 0, 0, 0, 1], Algorithm::HmacSha256, &key, now_ts, &mut response);
-            assert!(!ok, "[C01] an empty MAC never authenticates");
-        }
-    }
-    // reaching this point means set_tsig(...).unwrap() did not panic
-    let _ = needed;
-    kani::cover!(true, "the helper returned without panicking");
-    core::mem::forget(tsig_rr);
-    core::mem::forget(question);
-    core::mem::forget(keys);
-}
-
-macro_rules! reservation_harness {
-    ($name:ident, $lq:literal, $lk:literal, $la:literal, $nr:literal, $site:expr) => {
-        #[kani::proof]
-        #[kani::unwind(262)]
-        #[kani::stub(crate::message::tsig::Algorithm::name, alg_name_static)]
-        #[kani::stub(crate::message::tsig::Algorithm::from_name, from_name_model)]
-        #[kani::stub(crate::name::new_boxed_name, new_boxed_name_model)]
-        fn $name() {
-            reservation::<$lq, $lk, $la, $nr>($site);
-        }
+    let added = response.add_question(&question);
+    assert!(added.is_ok(), "[C01] the question fits the 512-octet response");
+    response.set_rcode(Rcode::NOTAUTH);
+    let prepared = PreparedTsigRr {
+        key_name: lower_box(Name::try_from_uncompressed_all(&kn).unwrap()),
+        time_signed: TimeSigned::from(time),
+        fudge: TSIG_FUDGE,
+        original_id: oid,
+        error: ExtendedRcode::BADKEY,
+        server_time: TimeSigned::from(time),
     };
+    let mode = writer::TsigMode::Unsigned {
+        algorithm: lower_box(Name::try_from_uncompressed_all(&an).unwrap()),
+    };
+    let r = response.set_tsig(mode, prepared);
+    let needed = 12 + LQ + 4 + LK + 10 + LA + 16;
+    assert!(r.is_ok() == (needed <= 512), "[C01] set_tsig fails exactly when question + TSIG RR exceed the size limit");
+    // mod.rs:621-628, 653-660 and 722-727 call .unwrap() on this result: the
+    // server-level harnesses above decide whether that panics
+    kani::cover!(true, "reservation made");
+    core::mem::forget(question);
 }
 
-// @harness name=c01_tsig_reserve_fits_1_64_64 props=C01 tier=quick mem=6 t=1200 stubs="S5a,S5b,S8" kani="--no-assertion-reach-checks"
-//   fn="find_tsig_algorithm_or_write_error,PreparedTsigRr::new_from_read,PreparedTsigRr::unsigned_len,Writer::set_tsig"
-//   bound="[C01]/D7 length arithmetic: root QNAME (1), key name of 64 octets, unknown algorithm name of 64 octets ('x' labels); 512-octet response; 17+64+64+26 = 171 <= 512: must not panic; unwind 262"
-//   sym="time signed, now"
-reservation_harness!(c01_tsig_reserve_fits_1_64_64, 1, 64, 64, 80, Site::UnknownAlgorithm);
+// @harness props=C01 tier=quick mem=3 t=600 kani="--no-assertion-reach-checks"
+//   fn="Writer::set_tsig,PreparedTsigRr::unsigned_len,Writer::add_question"
+//   bound="[C01]/D7 at Writer level: root QNAME, key name 64 octets, algorithm name 64 octets, 512-octet limit: 17+64+10+64+16 = 171: fits; unwind 8"
+//   sym="time signed, original ID"
+#[kani::proof]
+#[kani::unwind(8)]
+fn c01_set_tsig_fits_1_64_64() {
+    set_tsig_reservation::<1, 64, 64>();
+}
 
-// @harness name=c01_tsig_reserve_unknown_alg_1_255_255 props=C01 tier=quick mem=8 t=1800 stubs="S5a,S5b,S8" kani="--no-assertion-reach-checks"
-//   fn="find_tsig_algorithm_or_write_error,PreparedTsigRr::new_from_read,PreparedTsigRr::unsigned_len,Writer::set_tsig"
-//   bound="[C01]/D7: root QNAME, key name 255 octets, unknown algorithm name 255 octets; 17+255+255+26 = 553 > 512 (request of 553 octets); unwind 262"
-//   sym="time signed, now"
-reservation_harness!(c01_tsig_reserve_unknown_alg_1_255_255, 1, 255, 255, 271, Site::UnknownAlgorithm);
+// @harness props=C01 tier=quick mem=3 t=600 kani="--no-assertion-reach-checks"
+//   fn="Writer::set_tsig,PreparedTsigRr::unsigned_len,Writer::add_question"
+//   bound="[C01]/D7 at Writer level: QNAME 255, key name 128, algorithm name 64: 12+259+128+10+64+16 = 489: fits; unwind 8"
+//   sym="time signed, original ID"
+#[kani::proof]
+#[kani::unwind(8)]
+fn c01_set_tsig_fits_255_128_64() {
+    set_tsig_reservation::<255, 128, 64>();
+}
 
-// @harness name=c01_tsig_reserve_unknown_key_255_255 props=C01 tier=quick mem=8 t=1800 stubs="S5a,S5b,S8" kani="--no-assertion-reach-checks"
-//   fn="find_tsig_key_or_write_error,PreparedTsigRr::new_from_read,PreparedTsigRr::unsigned_len,Writer::set_tsig"
-//   bound="[C01]/D7: QNAME 255 octets, unknown key name 255 octets, algorithm hmac-sha256.; 12+259+255+13+26 = 565 > 512; unwind 262"
-//   sym="time signed, now"
-reservation_harness!(c01_tsig_reserve_unknown_key_255_255, 255, 255, 13, 29, Site::UnknownKey);
+// @harness props=C01 tier=quick mem=3 t=600 kani="--no-assertion-reach-checks"
+//   fn="Writer::set_tsig,PreparedTsigRr::unsigned_len,Writer::add_question"
+//   bound="[C01]/D7 at Writer level: root QNAME, key name 255, algorithm name 255: 17+255+10+255+16 = 553 > 512 (what a 553-octet request with an unknown key produces); unwind 8"
+//   sym="time signed, original ID"
+#[kani::proof]
+#[kani::unwind(8)]
+fn c01_set_tsig_overflow_1_255_255() {
+    set_tsig_reservation::<1, 255, 255>();
+}
 
-// @harness name=c01_tsig_reserve_bad_mac_255_255 props=C01 tier=quick mem=8 t=1800 stubs="S5a,S5b,S8" kani="--no-assertion-reach-checks"
-//   fn="verify_tsig_and_write_tsig_rr,ReadTsigRr::verify_request,check_mac_size,PreparedTsigRr::new_from_read,Writer::set_tsig"
-//   bound="[C01]/D7: QNAME 255 octets, key name 255 octets, hmac-sha256 with an empty MAC (FORMERR path, unsigned response TSIG); 565 > 512; unwind 262"
-//   sym="time signed, now"
-reservation_harness!(c01_tsig_reserve_bad_mac_255_255, 255, 255, 13, 29, Site::BadMacSize);
-
-// @harness name=c01_tsig_reserve_edge_255_128_64 props=C01 tier=thorough mem=8 t=1800 stubs="S5a,S5b,S8" kani="--no-assertion-reach-checks"
-//   fn="find_tsig_algorithm_or_write_error,Writer::set_tsig"
-//   bound="[C01]/D7: QNAME 255, key name 128, unknown algorithm name 64: 12+259+128+64+26 = 489 <= 512: must not panic; unwind 262"
-//   sym="time signed, now"
-reservation_harness!(c01_tsig_reserve_edge_255_128_64, 255, 128, 64, 80, Site::UnknownAlgorithm);
+// @harness props=C01 tier=quick mem=3 t=600 kani="--no-assertion-reach-checks"
+//   fn="Writer::set_tsig,PreparedTsigRr::unsigned_len,Writer::add_question"
+//   bound="[C01]/D7 at Writer level: QNAME 255, key name 255, algorithm hmac-sha256. (13): 12+259+255+10+13+16 = 565 > 512; unwind 8"
+//   sym="time signed, original ID"
+#[kani::proof]
+#[kani::unwind(8)]
+fn c01_set_tsig_overflow_255_255_13() {
+    set_tsig_reservation::<255, 255, 13>();
+}
